@@ -168,6 +168,92 @@ theorem allNodes_sound (f : Node → Bool) (g : Graph) (h : allNodes f g = true)
     · rename_i b hb
       exact ih b (allNodes_sub f g b i j h hb) g' hg n hn
 
+/-! ### walking with the visible annotations (a scope's own `vinfo` first, then the enclosing scopes') -/
+
+/-- Scope at a path together with the annotations visible in it. -/
+def Graph.atV? : List (Nat × Nat) → List (String × Annot) → Graph → Option (List (String × Annot) × Graph)
+  | [], outer, g => some (g.vinfo ++ outer, g)
+  | (i, j) :: p, outer, g =>
+    match g.sub? i j with
+    | none => none
+    | some b => Graph.atV? p (g.vinfo ++ outer) b
+
+mutual
+/-- `f vis n` holds for every node of the graph and of every nested body, `vis` being the annotations
+    visible in the node's scope. -/
+def allNodesV (f : List (String × Annot) → Node → Bool) (outer : List (String × Annot)) : Graph → Bool
+  | .mk _ _ ns _ vi => allNodesVL f (vi ++ outer) ns
+def allNodesVL (f : List (String × Annot) → Node → Bool) (vis : List (String × Annot)) : List Node → Bool
+  | [] => true
+  | n :: rest => allNodesVN f vis n && allNodesVL f vis rest
+def allNodesVN (f : List (String × Annot) → Node → Bool) (vis : List (String × Annot)) : Node → Bool
+  | .mk d o i u a bs => f vis (.mk d o i u a bs) && allNodesVB f vis bs
+def allNodesVB (f : List (String × Annot) → Node → Bool) (vis : List (String × Annot)) : List Graph → Bool
+  | [] => true
+  | b :: bs => allNodesV f vis b && allNodesVB f vis bs
+end
+
+theorem allNodesVL_mem (f : List (String × Annot) → Node → Bool) (vis : List (String × Annot))
+    (ns : List Node) (h : allNodesVL f vis ns = true) : ∀ n ∈ ns, allNodesVN f vis n = true := by
+  induction ns with
+  | nil => intro n hn; cases hn
+  | cons x xs ih =>
+    simp only [allNodesVL, Bool.and_eq_true] at h
+    intro n hn
+    cases hn with
+    | head => exact h.1
+    | tail _ hn => exact ih h.2 n hn
+
+theorem allNodesVB_mem (f : List (String × Annot) → Node → Bool) (vis : List (String × Annot))
+    (bs : List Graph) (h : allNodesVB f vis bs = true) : ∀ b ∈ bs, allNodesV f vis b = true := by
+  induction bs with
+  | nil => intro b hb; cases hb
+  | cons x xs ih =>
+    simp only [allNodesVB, Bool.and_eq_true] at h
+    intro b hb
+    cases hb with
+    | head => exact h.1
+    | tail _ hb => exact ih h.2 b hb
+
+theorem allNodesVN_self (f : List (String × Annot) → Node → Bool) (vis : List (String × Annot)) (n : Node)
+    (h : allNodesVN f vis n = true) : f vis n = true ∧ allNodesVB f vis n.bodies = true := by
+  cases n with
+  | mk d o i u a bs =>
+    simp only [allNodesVN, Bool.and_eq_true] at h
+    exact ⟨h.1, h.2⟩
+
+theorem allNodesV_nodes (f : List (String × Annot) → Node → Bool) (outer : List (String × Annot)) (g : Graph)
+    (h : allNodesV f outer g = true) : allNodesVL f (g.vinfo ++ outer) g.nodes = true := by
+  cases g with
+  | mk i t ns o v => simpa [allNodesV, Graph.nodes, Graph.vinfo] using h
+
+theorem allNodesV_sub (f : List (String × Annot) → Node → Bool) (outer : List (String × Annot)) (g b : Graph)
+    (i j : Nat) (h : allNodesV f outer g = true) (hs : g.sub? i j = some b) :
+    allNodesV f (g.vinfo ++ outer) b = true := by
+  unfold Graph.sub? at hs
+  split at hs
+  · cases hs
+  · rename_i n hn
+    have hmem : n ∈ g.nodes := List.mem_of_getElem? hn
+    have h1 := allNodesVL_mem f _ g.nodes (allNodesV_nodes f outer g h) n hmem
+    have h2 := (allNodesVN_self f _ n h1).2
+    exact allNodesVB_mem f _ n.bodies h2 b (List.mem_of_getElem? hs)
+
+/-- **Recursive test with visible annotations ⇒ every node at every depth.** -/
+theorem allNodesV_sound (f : List (String × Annot) → Node → Bool) :
+    ∀ (p : List (Nat × Nat)) (outer : List (String × Annot)) (g : Graph), allNodesV f outer g = true →
+      ∀ vis g', g.atV? p outer = some (vis, g') → ∀ n ∈ g'.nodes, f vis n = true
+  | [], outer, g, h, vis, g', hg, n, hn => by
+    simp only [Graph.atV?, Option.some.injEq, Prod.mk.injEq] at hg
+    obtain ⟨rfl, rfl⟩ := hg
+    exact (allNodesVN_self f _ n (allNodesVL_mem f _ g.nodes (allNodesV_nodes f outer g h) n hn)).1
+  | (i, j) :: p, outer, g, h, vis, g', hg, n, hn => by
+    simp only [Graph.atV?] at hg
+    split at hg
+    · cases hg
+    · rename_i b hb
+      exact allNodesV_sound f p _ b (allNodesV_sub f outer g b i j h hb) vis g' hg n hn
+
 /-- Lookup in an association list (first match). -/
 def lookup (x : String) : List (String × Annot) → Option Annot
   | [] => none
